@@ -22,6 +22,10 @@ def check(prog, name):
         if name.startswith("init_sets:"):
             _, ty, field = name.split(":")
             r = init_sets(prog, ty, field)
+        elif name.startswith("dep_version:"):
+            _, pkg, ver = name.split(":")
+            have = (getattr(prog, "meta", {}) or {}).get("lock_versions", {}).get(pkg)
+            r = (have == [ver], "Cargo.lock pins %s to %s (reviewed version: %s)" % (pkg, have, ver))
         else:
             r = globals()["a_" + name](prog)
     except Exception as e:  # an anchor that cannot be evaluated does not hold
@@ -353,6 +357,33 @@ def a_target_set_before_enqueue(prog):
     if n < 6:
         return False, "only %d enqueue sites found (expected >= 6)" % n
     return True, "all %d enqueue sites are preceded by set_target on every path" % n
+
+
+def a_socks_reply_target_known(prog):
+    """the target put into a SOCKS reply is never TargetAddress::Unknown: besides a_target_set_before_enqueue, a reply built by
+    listener code takes the context's target only in on_connect (which runs after the request was enqueued, hence after set_target);
+    on_error can run before any target was recorded and must use a fixed or socket-derived address"""
+    ok, why = a_target_set_before_enqueue(prog)
+    if not ok:
+        return ok, why
+    n = 0
+    for f in prog.fns.values():
+        if f.crate != "redproxy_rs" or f.file.endswith("common/socks.rs"):
+            continue
+        builds = [b for b in f.reachable for st in f.stmts(b)
+                  if st["k"] == "assign" and st["rv"]["k"] == "agg" and str(st["rv"].get("def", "")).endswith("socks::SocksResponse")]
+        if not builds:
+            continue
+        n += 1
+        top = prog.top_parent(f)
+        group = [top] + prog.children(top)
+        tcalls = [c for g in group for c in g.calls if re.search(r"context::Context::target$", c.name or c.path or "")]
+        if tcalls and not re.search(r"ContextCallback>::on_connect", top.path):
+            return False, "%s builds a SOCKS reply and reads Context::target() (%s) outside on_connect: the target may still be Unknown there" % (
+                top.path, tcalls[0].where())
+    if n < 2:
+        return False, "only %d functions building a SocksResponse found (expected >= 2)" % n
+    return True, why + "; %d reply builders read Context::target() only in on_connect" % n
 
 
 def a_http_connector_inline(prog):
